@@ -219,7 +219,9 @@ def P_C18 (nf : String → PRep) (mode client : String) (hasPayload pipelinedPay
         match div with
         | some v => some v
         | none =>
-          if o.exit == "0" then none
+          -- `closed-by-service`: the service closed the connection (the direct run shows it too) and the
+          -- pump stopped with status 0 or with an I/O error (reset), whichever its last read/write saw
+          if o.exit == "0" || (o.exit == "closed-by-service" && !o.directClosed.isEmpty) then none
           -- a service that drops its connection is an I/O error for the bridge
           else if exps.any (·.afterAbort) then none
           else some ("exit-status-" ++ o.exit ++ "-after-client-close")
@@ -251,7 +253,7 @@ def P_C18 (nf : String → PRep) (mode client : String) (hasPayload pipelinedPay
           -- a oneway call after the service dropped its direct connection is executed only through the bridge
           some (if exps.any (·.afterAbort) || routed.any (fun r => o.directClosed.contains r.target)
                 then "service-abort-not-propagated" else "service-saw-different-calls")
-        else if o.exit != "0" then
+        else if o.exit != "0" && !(o.exit == "closed-by-service" && !o.directClosed.isEmpty) then
           some (if upgradedSession && hasPayload then "upgraded-session-exit-" ++ o.exit
                 else if upgradedSession then "upgraded-session-exit-" ++ o.exit
                 else "exit-status-" ++ o.exit)
